@@ -168,6 +168,16 @@ fn panics(o: &Outcome, a: &mut Analysis, prop: &'static str) {
 // C11
 // ------------------------------------------------------------------------------------------
 
+/// Read forms share code paths: point lookups, iteration, entry API. The signature names
+/// the family (the exact form is in the summary / witness).
+fn family(k: Kind) -> &'static str {
+  match k {
+    Kind::Iter | Kind::IterSnapshot => "iteration",
+    Kind::Entry => "entry",
+    _ => "lookup",
+  }
+}
+
 struct Rd<'a> {
   e: &'a Ev,
   wid: u64,
@@ -214,13 +224,13 @@ pub fn check_register(o: &Outcome, wt: &HashMap<u64, WInfo>, a: &mut Analysis) {
       // rule 0: wrong key / unknown value
       match wt.get(&ob.wid) {
         None => {
-          a.push(P, format!("register/phantom-value/{}", e.kind.name()),
+          a.push(P, format!("register/phantom-value/{}", family(e.kind)),
             format!("{} for key {} returned value id {} that no write created", e.form(), ob.key, ob.wid),
             json!({"read": e.to_json()}));
           continue;
         }
         Some(w) if w.key != ob.key || ob.vkey != ob.key => {
-          a.push(P, format!("register/cross-key/{}", e.kind.name()),
+          a.push(P, format!("register/cross-key/{}", family(e.kind)),
             format!("{} for key {} returned a value written for key {}", e.form(), ob.key, w.key),
             json!({"read": e.to_json(), "write_key": w.key, "wid": w.wid}));
           continue;
@@ -248,7 +258,7 @@ pub fn check_register(o: &Outcome, wt: &HashMap<u64, WInfo>, a: &mut Analysis) {
       }
       for w2 in ws {
         if w2.wid != w.wid && w.ret < w2.call && w2.ret < r.e.call {
-          a.push(P, format!("register/stale-read/{}", r.e.kind.name()),
+          a.push(P, format!("register/stale-read/{}", family(r.e.kind)),
             format!("{} of key {} returned value {} although the later write {} ({}) had completed before the read was invoked",
               r.e.form(), key, w.wid, w2.wid, w2.form),
             json!({"key": key, "read": r.e.to_json(), "returned_write": {"wid": w.wid, "call": w.call, "ret": w.ret, "form": w.form},
@@ -258,7 +268,7 @@ pub fn check_register(o: &Outcome, wt: &HashMap<u64, WInfo>, a: &mut Analysis) {
       }
       for &(rc, rr, form) in rs.iter().chain(clears.iter()) {
         if w.ret < rc && rr < r.e.call {
-          a.push(P, format!("register/resurrection/{}", r.e.kind.name()),
+          a.push(P, format!("register/resurrection/{}", family(r.e.kind)),
             format!("{} of key {} returned value {} although a {} invoked after that write had completed before the read was invoked",
               r.e.form(), key, w.wid, form),
             json!({"key": key, "read": r.e.to_json(), "returned_write": {"wid": w.wid, "call": w.call, "ret": w.ret, "form": w.form},
@@ -282,7 +292,7 @@ pub fn check_register(o: &Outcome, wt: &HashMap<u64, WInfo>, a: &mut Analysis) {
           if r1.e.kind == Kind::FetchWith && w2.is_load {
             continue;
           }
-          a.push(P, format!("register/new-old-inversion/{}", r.e.kind.name()),
+          a.push(P, format!("register/new-old-inversion/{}", family(r.e.kind)),
             format!("key {}: {} returned {} after an earlier completed {} had already returned the newer value {}",
               key, r.e.form(), w1.wid, r1.e.form(), w2.wid),
             json!({"key": key, "earlier_read": r1.e.to_json(), "later_read": r.e.to_json(),
